@@ -16,7 +16,7 @@ from ref import cms, dtyp, gkdi
 ID = "C10"
 LEVEL = "model_checking"
 RULE = (
-    "sequential part: every operation sequence of length <=3 (quick) / <=4 (thorough) over 19 operations {load root key; unprotect blob of triple T at position p "
+    "sequential part: every operation sequence of length <=3 (thorough: <=4 over a 10-operation sub-alphabet) over 19 operations {load root key; unprotect blob of triple T at position p "
     "(14 (T,p) over 2 SIDs x 2 L0 values); protect for SD1/SD2 with/without naming the root key} x 4 DC policies {authorised+exact position, the same with the L2 key omitted at L2'=31, authorised+later covering "
     "envelope, not authorised (public key only, depth 3)}; the live KeyCache is shared along a history (prefix sharing by deep copy, cross-checked against replay from scratch). "
     "mixed part: histories of length <=3 over 17 operations {load; 4 operations on one triple x {sync, async} x {caller is a group member, caller is not (public key only)}} on one shared cache. "
@@ -28,7 +28,7 @@ RULE = (
     "position obtained, root_loaded: a call the model says is covered makes zero GetKey RPCs. state = history (sequence of operations / schedule prefix); transition = one API call."
 )
 ASSUME = ["reference DC with the scripted security context (authentication is C15-C17's subject)", "deep copy of the live KeyCache is equivalent to replaying the history (cross-checked on sampled histories)"]
-BOUND = {"quick": "depth 3 over 19 ops x 4 policies; mixed flavour/caller histories depth 3 over 19 ops; 2 concurrent tasks, deviation bound 2", "thorough": "depth 4 (authorised policies), depth 3 (not authorised); mixed depth 3; 3 concurrent tasks, deviation bound 3"}
+BOUND = {"quick": "depth 3 over 19 ops x 4 policies; mixed flavour/caller histories depth 3 over 19 ops; 2 concurrent tasks, deviation bound 2", "thorough": "depth 3 over all 19 ops x 4 policies + depth 4 over the 10 ops of triple T1 (exact, later); mixed depth 3; 3 concurrent tasks, deviation bound 3"}
 
 A, Bb = 361, 360
 NOW = (A, 10, 12)
@@ -40,6 +40,8 @@ TRIPLES = {"T1": (SID1, A), "T2": (SID2, A), "T3": (SID1, Bb)}
 # (T1 (9,20) and T3 (19,7) lie in the L1 interval directly below another listed position of their triple; T3 (11,0) directly follows T3 (10,31); T2 (0,3) and (0,5) lie in the first L1 interval, where a DC envelope has no L1 key)
 UNPROT = [("T1", (3, 5)), ("T1", (3, 20)), ("T1", (9, 20)), ("T1", (10, 5)), ("T1", (10, 12)), ("T2", (0, 3)), ("T2", (0, 5)), ("T2", (10, 12)), ("T3", (3, 5)), ("T3", (19, 7)), ("T3", (20, 0)), ("T3", (31, 31)), ("T3", (10, 31)), ("T3", (11, 0))]
 OPS: t.List[t.Tuple[t.Any, ...]] = [("load",)] + [("unprot", T, p) for T, p in UNPROT] + [("prot", s, named) for s in ("T1", "T2") for named in (True, False)]
+# depth 4 (thorough) runs over the 10 operations that concern triple T1 and the L1-boundary neighbours of T3
+OPS4: t.List[t.Tuple[t.Any, ...]] = [o for o in OPS if o[0] == "load" or o[1] == "T1" or (o[0] == "unprot" and o[1] == "T3" and tuple(o[2]) in ((10, 31), (11, 0)))]
 POLICIES = ["exact", "later", "unauth", "noL2"]  # noL2: exact position, the envelope omits the L2 key when L2'=31
 # mixed histories: each operation additionally names its API flavour and its caller (a group member served with seed keys, or a
 # non-member whom the DC only hands the public key) - all sharing ONE cache
@@ -476,9 +478,11 @@ def shards(tier: str, seed: int):
         for part in range(16):
             out.append(["threads", "exact", THREAD_PAIRS[0], 2, True, part, 16])
     for pol in POLICIES:
-        depth = 3 if tier == "quick" or pol in ("unauth", "noL2") else 4
         for i in range(len(OPS)):
-            out.append(["seq", pol, i, depth])
+            out.append(["seq", pol, i, 3])
+        if tier == "thorough" and pol in ("exact", "later"):
+            for i in range(len(OPS4)):
+                out.append(["seq4", pol, i, 4])
     for i in range(len(MIXED_OPS)):
         out.append(["mixed", "exact", i, 3])
     pairs = []
@@ -510,11 +514,11 @@ def _norm(op) -> t.Tuple[t.Any, ...]:
 def run_shard(shard, tier, seed, acc) -> None:
     worker_init()
     w = world(seed)
-    if shard[0] in ("seq", "mixed"):
+    if shard[0] in ("seq", "seq4", "mixed"):
         import dpapi_ng
 
         _, pol, first, depth = shard
-        ops = OPS if shard[0] == "seq" else MIXED_OPS
+        ops = {"seq": OPS, "seq4": OPS4, "mixed": MIXED_OPS}[shard[0]]
         op = ops[first]
         cache = dpapi_ng.KeyCache()
         m = new_model()
